@@ -209,7 +209,35 @@ def gen_modules(rng, tier):
                     "family": "V", "nadd": 3, "groups": [(0, 2)],
                     "std_ety": "E%d{%s}{%s%s}" % (SEQ_TAG, model_str(rtrees[0]), model_str(grp), model_str(atrees[2]))}
     mods.append(finish_module(m))
+    # ---- (6) length of the preamble / root presence bitmap: 0..17 OPTIONAL root members next to the extension marker
+    # (OER: extension bit + k presence bits = 1, 2, 3 octets with the splits at k = 7|8 and 15|16; UPER: k-bit bitmap)
+    m = new_module("XP", "AUTOMATIC")
+    for k in ROOT_OPT_COUNTS:
+        root = [("m%d" % i, {"k": "bool"} if i % 3 else {"k": "int", "con": (0, 255, False)}, True) for i in range(k)] + [("z", {"k": "bool"}, False)]
+        adds = [("e0", {"k": "bool"}, True), ("e1", {"k": "int", "con": (0, 255, False)}, True)]
+        build_seq_family(m, "P%d" % k, root, adds, [0, 2], "AUTOMATIC", {})
+    mods.append(finish_module(m))
     return mods
+
+
+ROOT_OPT_COUNTS = list(range(18))
+
+
+def root_presence_patterns(k, rng):
+    """presence patterns of k OPTIONAL root members: none, all, each octet boundary of the preamble alone (the 8th and
+    the 16th presence bit are the first bits of the 2nd and 3rd preamble octet in OER), last, random"""
+    pats = [[False] * k]
+    if k:
+        pats.append([True] * k)
+        for only in (6, 7, 8, 14, 15, 16, k - 1):
+            if 0 <= only < k:
+                pats.append([i == only for i in range(k)])
+        pats += [[rng.chance(1, 2) for _ in range(k)] for _ in range(2)]
+    out = []
+    for q in pats:
+        if q not in out:
+            out.append(q)
+    return out
 
 
 def std_value_v1(v):
@@ -244,11 +272,14 @@ def presence(pattern, n, rng):
     return [rng.chance(1, 2) for _ in range(n)]
 
 
-def seq_value(x, pres, rng):
+def seq_value(x, pres, rng, rpres=None):
+    """pres: presence of the additions; rpres: presence of the OPTIONAL root members in their order (None: drawn)"""
     rv = []
+    ro = iter(rpres) if rpres is not None else None
     for t in x["rtrees"]:
         if t[0] == "?":
-            rv.append(("!", value(t[1], rng, 1)) if rng.chance(1, 2) else ("_",))
+            here = next(ro) if ro is not None else rng.chance(1, 2)
+            rv.append(("!", value(t[1], rng, 1)) if here else ("_",))
         else:
             rv.append(value(t, rng, 1))
     av = [("!", value(t, rng, 1)) if p else ("_",) for t, p in zip(x["atrees"], pres)]
